@@ -87,6 +87,7 @@ class Engine(FsMixin, ExprMixin, StmtMixin, CallMixin, SpecMixin, BuiltinMixin, 
         self.frontier = z3.Int("FRONTIER")
         self.frontier_blocks = []
         self.glob_hooks = []
+        self.lambdas = {}
         self._iter_start = None
         self.missing = {}
         self._consts_done = set()
@@ -151,9 +152,13 @@ class Engine(FsMixin, ExprMixin, StmtMixin, CallMixin, SpecMixin, BuiltinMixin, 
         if rel in self._consts_done:
             return
         self._consts_done.add(rel)
-        for node in self.src.tree(rel).body:
+        todo = [(None, n_) for n_ in self.src.tree(rel).body]
+        for cls_, n_ in list(todo):
+            if isinstance(n_, ast.ClassDef):       # class-level constants: ClassName.ATTR
+                todo += [(n_.name, m_) for m_ in n_.body]
+        for cls_, node in todo:
             if isinstance(node, ast.Assign) and len(node.targets) == 1 and isinstance(node.targets[0], ast.Name):
-                nm = node.targets[0].id
+                nm = node.targets[0].id if cls_ is None else f"{cls_}.{node.targets[0].id}"
                 if nm in self.reg.consts:
                     continue
                 v = node.value
@@ -222,6 +227,7 @@ class Engine(FsMixin, ExprMixin, StmtMixin, CallMixin, SpecMixin, BuiltinMixin, 
         self.interference = c.get("interference")
         self.track_writes = set(c.get("track_writes", []))
         self.local_types = dict(c.get("locals", {}))
+        self.merging = c.get("merge", True)
         self.effect_guards = c.get("effect_guards", {})
         self.current_key = key
         # ordinal of each for-loop among the loops of the function with the same target text (source order)
@@ -255,6 +261,19 @@ class Engine(FsMixin, ExprMixin, StmtMixin, CallMixin, SpecMixin, BuiltinMixin, 
                 kinds["undecided"] = kinds.get("undecided", 0) + 1
                 continue
             self.check_outcome(c, key, entry, binds, r)
+            if r.kind in ("normal", "return"):
+                # clauses that may mention the locals of the function (their final values)
+                lb = dict(binds); lb.update({k_: v_ for k_, v_ in r.st.env.items() if isinstance(v_, V)})
+                lb["result"] = r.val if r.val is not None else V(NONE, "none")
+                for p_ in c.get("ensures_locals", []):
+                    if clause_active(p_, self.prop):
+                        try:
+                            goal_ = self.spec(r.st, entry, clause_text(p_), lb)
+                        except Unsupported as e_:
+                            if "unknown name" in str(e_):
+                                continue        # the clause speaks about locals of another branch
+                            raise
+                        self.oblige(f"post(locals) {key}: {clause_text(p_)}", "post", goal_, r.st)
             kk = r.kind if r.kind != "raise" else "raise:" + str(r.exc)
             kinds[kk] = kinds.get(kk, 0) + 1
         # the pre-state heap only holds objects allocated before the call
